@@ -303,5 +303,13 @@ def find_named(g, name, _seen=None):
 
 
 def may_be_hex(g):
-    """Can a token of this expression start with 0x?"""
-    return contains_literal(g, "0x") or contains_literal(g, "0X")
+    """Can a token of this expression be a hexadecimal literal (0x..)?"""
+    if contains_literal(g, "0x") or contains_literal(g, "0X"):
+        return True
+    from . import automata
+
+    try:
+        nfa, start = automata.envelope(g)
+        return nfa.accepts("0x1f", start)
+    except Exception:
+        return False
